@@ -6373,3 +6373,111 @@ def ws6(m, run, rule='WS6.weight-converters-exact'):
                     bad.append(('%d point(s) of dimension %d' % (n, dim), why))
         run.ob(rule, '%s :: %d cases' % (fi.key, cnt), not bad, 'exact coordinate map, own weight per point, fresh lists, input untouched, inverted by its partner' if not bad else
                '%s: %s   [%d of %d cases]' % (bad[0][0], bad[0][1], len(bad), cnt), 'geomdl/compatibility.py:%d in %s' % (fi.node.lineno, fi.key))
+
+
+# ====================================================================================== C13: the 2-D flip and the surface flip
+def fl3(m, run, rule='FL3.flips-on-labelled-nets'):
+    """FL3: compatibility.flip_ctrlpts2d interpreted on labelled 2 x 3 and 3 x 2 grids, with the sizes given and detected: result[v][u] is
+    input[u][v] for every (u, v), in fresh lists; operations.flip interpreted on real B-spline and rational surfaces (3 x 4, exact
+    symbolic points, every view read beforehand so that its caches are warm), in place and on a copy: afterwards the stored
+    homogeneous point k is the former point N - 1 - k, the sizes are unchanged, the ctrlpts / weights getters and the 2-D view report
+    the reversed net, and without inplace the input is untouched"""
+    from .skel import Sym
+    from .poly import Poly
+    f2 = m.func('compatibility.flip_ctrlpts2d')
+    bad = []
+    for su, sv in ((2, 3), (3, 2)):
+        for with_sizes in (True, False):
+            grid = [[[Tok('DEF', dep=frozenset([(u, v, c)])) for c in range(3)] for v in range(sv)] for u in range(su)]
+            sk = SK(m, dict(STD_ABSTRACTED))
+            try:
+                out = sk.call(f2, [grid] + ([su, sv] if with_sizes else []), {})
+                ok = isinstance(out, list) and len(out) == sv and all(isinstance(r, list) and len(r) == su for r in out)
+                why = None if ok else 'the result is not a %d x %d grid' % (sv, su)
+                for v in range(sv if ok else 0):
+                    for u in range(su):
+                        f = footprint(out[v][u]) if isinstance(out[v][u], (list, tuple)) else None
+                        if not f or {x[:2] for x in f} != {(u, v)} or len(out[v][u]) != 3:
+                            why = 'result[%d][%d] is %r, expected the point input[%d][%d]' % (v, u, out[v][u], u, v)
+                            break
+                        if out[v][u] is grid[u][v]:
+                            why = 'result[%d][%d] is the very list of the input' % (v, u)
+                            break
+                    if why:
+                        break
+            except Violation as v_:
+                why = '%s %s' % (v_.msg, v_.where())
+            except Unsupported as ex:
+                raise AnalysisError('%s: interpreter met an unsupported construct: %s' % (f2.key, ex))
+            if why:
+                bad.append(('%d x %d grid%s' % (su, sv, '' if with_sizes else ', sizes detected'), why))
+    run.ob(rule, '%s :: 4 grids' % f2.key, not bad, 'result[v][u] = input[u][v], fresh lists' if not bad else '%s: %s' % bad[0], 'geomdl/compatibility.py:%d in %s' % (f2.node.lineno, f2.key))
+    ff = m.func('operations.flip')
+    su, sv, degs = 3, 4, (2, 1)
+    total = su * sv
+    for mod in ('BSpline', 'NURBS'):
+        for inplace in (True, False):
+            key = 'operations.flip :: %s.Surface, inplace=%s' % (mod, inplace)
+            ab = dict(STD_ABSTRACTED)
+            ab[('knotvector', 'normalize')] = Py(lambda sk, node, kv, *a, **k: [Ord(x.rank) for x in kv], 'knotvector.normalize')
+            sk = SK(m, ab)
+            sk.exact = True
+            sk.construct = True
+            sk.follow_deepcopy = True
+            why = None
+
+            def getp(obj, nm):
+                return sk.call(m.lookup(obj._cls, nm, 'getters'), [obj], {})
+            try:
+                src = sk.apply(('class', (mod, 'Surface')), [], {}, None)
+                for d, sfx in enumerate(('_u', '_v')):
+                    sk.call(m.lookup(src._cls, 'degree' + sfx, 'setters'), [src, degs[d]], {})
+                hd = 4 if mod == 'NURBS' else 3
+                P = [[Poly.atom('P%d_%d' % (i, c)) for c in range(hd)] for i in range(total)]
+                sk.call(m.lookup(src._cls, 'set_ctrlpts', 'methods'), [src, [[Sym(x) for x in r] for r in P], su, sv], {})
+                for d, (sfx, p, n) in enumerate((('_u', degs[0], su), ('_v', degs[1], sv))):
+                    sk.call(m.lookup(src._cls, 'knotvector' + sfx, 'setters'), [src, [Ord(10 * d + r) for r in [0] * (p + 1) + list(range(1, n - p)) + [n - p] * (p + 1)]], {})
+                for nm in ('ctrlpts', 'ctrlpts2d') + (('weights', 'ctrlptsw') if mod == 'NURBS' else ()):
+                    getp(src, nm)                                    # warm every cached view
+                out = sk.call(ff, [src], {'inplace': inplace})
+                res = src if inplace else out
+                if inplace and out is not src:
+                    why = 'inplace=True does not return the surface passed in'
+                elif not inplace and (out is src or not isinstance(out, Bag)):
+                    why = 'inplace=False returns the input itself'
+
+                def views(o_, order, what):
+                    if list(o_._a['_control_points_size']) != [su, sv]:
+                        return '%s: sizes %r' % (what, o_._a['_control_points_size'])
+                    st = o_._a['_control_points']
+                    cp = getp(o_, 'ctrlpts')
+                    g2 = getp(o_, 'ctrlpts2d')
+                    ww = getp(o_, 'weights') if mod == 'NURBS' else None
+                    for k in range(total):
+                        src_k = order(k)
+                        for c in range(hd):
+                            s_ = _as_sym(st[k][c]) if len(st[k]) > c else None
+                            if s_ is None or not s_.same(Sym(P[src_k][c])):
+                                return '%s: stored point %d slot %d is %r, expected the former point %d (%r)' % (what, k, c, st[k][c] if len(st[k]) > c else None, src_k, P[src_k][c])
+                        g_ = g2[k // sv][k % sv]
+                        if g_ is not st[k] and [repr(x) for x in g_] != [repr(x) for x in st[k]]:
+                            return '%s: the 2-D view at [%d][%d] is %r, the stored point there is %r (a stale view)' % (what, k // sv, k % sv, g_, st[k])
+                        for c in range(3):
+                            want = Sym(P[src_k][c], P[src_k][3]) if mod == 'NURBS' else Sym(P[src_k][c])
+                            s_ = _as_sym(cp[k][c])
+                            if s_ is None or not s_.same(want):
+                                return '%s: the ctrlpts getter reports %r for point %d coordinate %d, expected %r (a stale view)' % (what, cp[k][c], k, c, want)
+                        if ww is not None:
+                            s_ = _as_sym(ww[k])
+                            if s_ is None or not s_.same(Sym(P[src_k][3])):
+                                return '%s: the weights getter reports %r for point %d, expected %r (a stale view)' % (what, ww[k], k, P[src_k][3])
+                    return None
+                if why is None:
+                    why = views(res, lambda k: total - 1 - k, 'the flipped surface')
+                if why is None and not inplace:
+                    why = views(src, lambda k: k, 'the input after inplace=False')
+            except Violation as v_:
+                why = '%s %s' % (v_.msg, v_.where())
+            except Unsupported as ex:
+                raise AnalysisError('%s: interpreter met an unsupported construct: %s' % (key, ex))
+            run.ob(rule, key, why is None, 'stored points reversed, every view follows%s' % ('' if inplace else ', input untouched') if why is None else why, 'geomdl/operations.py:%d in %s' % (ff.node.lineno, ff.key))
